@@ -238,6 +238,35 @@ def run(ctx, res):
             res.violation(rid3, "%s-single-datum" % f, "the keys %s are mapped to the one field `%s`, but rule meta-data is inherited key "
                           "by key and nothing compares a key with those names: a production that gives `%s` itself still inherits "
                           "the rule's `%s`, and the one applied last wins" % (sorted(ks), f, sorted(ks)[0], sorted(ks)[-1]), ep.loc())
+    # the Layout rule is the rule NAMED `Layout`: a comparison through to_lowercase() makes a user rule `LAYOUT` or `layout`
+    # the layout of the grammar (D47)
+    rid2b = res.rule("C09-R2b", "the special rule is found by its documented name `Layout`, compared as written", floor=1)
+    lowered = False
+    seen_layout = False
+    for h in [f for p_, f in F.fns.items() if f.crate == "rustemo_compiler" and "grammar::builder" in p_ and f.has_body()]:
+        tbh = mir.TermBuilder(h, F)
+        for b, tm in h.calls():
+            nm = mir.strip_generics(callee(tm) or "")
+            if nm.endswith("::eq") or nm.endswith("::ne"):
+                ops = [tbh.operand(a) for a in tm.get("args", [])]
+                strs = [mir.const_str(x) for o in ops for x in mir.walk(o) if mir.const_str(x) is not None]
+                if any(x.lower() == "layout" for x in strs):
+                    seen_layout = True
+                    if any(mir.has_call(o, "to_lowercase") or mir.has_call(o, "eq_ignore_ascii_case") or mir.has_call(o, "to_uppercase") for o in ops):
+                        lowered = True
+            elif nm.endswith("eq_ignore_ascii_case"):
+                ops = [tbh.operand(a) for a in tm.get("args", [])]
+                strs = [mir.const_str(x) for o in ops for x in mir.walk(o) if mir.const_str(x) is not None]
+                if any(x.lower() == "layout" for x in strs):
+                    seen_layout = lowered = True
+    if not seen_layout:
+        res.anchor_lost(rid2b, "comparison with the name of the Layout rule not found in grammar::builder")
+    elif lowered:
+        res.violation(rid2b, "layout-name-case", "the Layout rule is looked up by `name.to_lowercase() == \"layout\"`: a user rule LAYOUT / "
+                      "layout / LayOut silently becomes the grammar's layout (`S: 'a' LAYOUT 'b'; LAYOUT: 'x';` accepts `xaxxb`)",
+                      "rustemo-compiler/src/grammar/builder.rs")
+    else:
+        res.ok(rid2b, "layout-name-case", None, "compared as written")
     # R4 inline literals
     rid4 = res.rule("C09-R4", "inline string literals resolve to the terminal declared with that string", floor=2)
     ct = F.one(GB.replace(":", r"\:") + "collect_terminals$")
